@@ -33,7 +33,11 @@ def selectors(ws):
         ("config-minimal", ["--config", cfg_min], "minimal"),
         ("config-default", ["--config", cfg_def], "default"),
         ("arg-over-config", ["--config", cfg_def, "--return-code-scheme", "minimal"], "minimal"),
+        ("arg-default-over-config-minimal", ["--config", cfg_min, "--return-code-scheme", "default"], "default"),
+        ("arg-minimal-over-set-default", ["--set", "mode.return_code_scheme=default", "--return-code-scheme", "minimal"], "minimal"),
+        ("arg-default-over-set-minimal", ["--set", "mode.return_code_scheme=minimal", "--return-code-scheme", "default"], "default"),
     ]
+ALWAYS = ("none", "arg-over-config", "arg-default-over-config-minimal")
 
 
 def scenarios(ws):
@@ -108,6 +112,8 @@ def scenarios(ws):
     add("parser-error-fix-continue", ["--continue-on-error", "fix", "fixable.md", "p.md"], "systemError", "010110",
         {"p.md": PARSEBOOM, "fixable.md": FIXABLE}, fault=True)
     add("parser-error-stdin", ["scan-stdin"], "systemError", "010100", stdin=PARSEBOOM, fault=True)
+    add("parser-error-stdin-continue", ["--continue-on-error", "scan-stdin"], "systemError", "010100", stdin=PARSEBOOM, fault=True)
+    add("plugin-error-stdin-continue", ["--add-plugin", plug, "--continue-on-error", "scan-stdin"], "systemError", "010100", stdin=PLUGBOOM)
     add("undecodable", ["scan", "u.md"], "systemError", files={"u.md": UNDEC})
     add("undecodable-fix", ["fix", "u.md"], "systemError", files={"u.md": UNDEC})
     add("undecodable-after-failures", ["scan", "a_unfix.md", "u.md"], "systemError", files={"a_unfix.md": UNFIX, "u.md": UNDEC})
@@ -143,10 +149,10 @@ def run(ctx):
         sels = selectors(ws)
         scs = scenarios(ws)
         if ctx.quick():
-            # every scenario under 3 selectors chosen by seed (none always included); thorough = all 8
-            rest = sels[1:]
+            # every scenario under the ALWAYS selectors (no selector, command line over configuration both ways) + 2 chosen by seed; thorough = all 11
+            rest = [x for x in sels if x[0] not in ALWAYS]
             ctx.rng.shuffle(rest)
-            sels = [sels[0]] + rest[:3]
+            sels = [x for x in sels if x[0] in ALWAYS] + rest[:2]
         # model answers for scenarios that go through the flow
         reqs, idx = [], []
         for si, sc in enumerate(scs):
